@@ -98,7 +98,7 @@ C11_Restart(g, pre, kind, tx, r, post) ==
             /\ post.dkgs[Len(post.dkgs)].cfg = c
 
 C11_Started(g, pre, kind, tx, r, post) ==
-    \A i \in DOMAIN pre.configs :
+    \A i \in (DOMAIN pre.configs) \cap (DOMAIN post.configs) :    \* (C11_ConfigsStable covers shrinking)
       (post.configs[i].started /\ ~pre.configs[i].started) =>
         /\ kind = "end"
         /\ LET prev == pre.configs[IF i > 1 THEN i - 1 ELSE 1]
